@@ -128,9 +128,9 @@ ValSet == {<<>>, <<120>>, <<112, 47, 113>>}
 Keys == [ns : NsSet, val : ValSet]
 
 IsExport == Mode = "export"
-\* integer ranges: export only the boundary values; quick tier: those and every 11th value
+\* integer ranges: export only the boundary values; quick tier: those and every 23rd value
 Ints(S) == IF IsExport THEN BoundaryVals \cap S
-           ELSE IF Mode = "quick" THEN {x \in S : x % 11 = 0} \cup (BoundaryVals \cap S)
+           ELSE IF Mode = "quick" THEN {x \in S : x % 23 = 0} \cup (BoundaryVals \cap S)
            ELSE S
 Pick(S, P(_)) == IF IsExport THEN {x \in S : P(x)} ELSE S
 U64Pick(l) == l[2] = l[3] /\ (l[3] = l[4] \/ l[1] = l[2])
